@@ -49,6 +49,33 @@ func OutDir() string {
 	return VerifDir()
 }
 
+// StartWatchdog bounds the whole run by wall-clock time (quick 15 min, thorough 3 h; VERIF_WATCHDOG_MIN
+// overrides). A library call that never returns (possible on a changed tree) would otherwise keep
+// the monitor alive for ever. Firing is not a verdict on the property: the run ends INCONCLUSIVE
+// (exit 3) with a goroutine dump showing where it was.
+func StartWatchdog(prop, tier string) {
+	mins := 15
+	if tier == "thorough" {
+		mins = 180
+	}
+	if s := os.Getenv("VERIF_WATCHDOG_MIN"); s != "" {
+		if v, err := strconv.Atoi(s); err == nil && v > 0 {
+			mins = v
+		}
+	}
+	go func() {
+		time.Sleep(time.Duration(mins) * time.Minute)
+		dir := filepath.Join(OutDir(), "replays", prop)
+		_ = os.MkdirAll(dir, 0o755)
+		path := filepath.Join(dir, fmt.Sprintf("watchdog-%d.log", os.Getpid()))
+		buf := make([]byte, 4<<20)
+		buf = buf[:runtime.Stack(buf, true)]
+		_ = os.WriteFile(path, buf, 0o644)
+		fmt.Printf("INCONCLUSIVE property=%s reason=watchdog: the monitor did not finish within %d minutes (goroutine dump: %s)\n", prop, mins, path)
+		os.Exit(3)
+	}()
+}
+
 func WorkDir(prop string) string {
 	d := filepath.Join(VerifDir(), ".work", fmt.Sprintf("%s-%d", prop, os.Getpid()))
 	_ = os.MkdirAll(d, 0o755)
